@@ -18,5 +18,21 @@ E10_childrenSize_table C04 size
 E10_childrenSize_table C13 err_
 E11_validateFlags C07 flags|empty
 E11_validateFlags C15
+E12_algos_neighbor_loops C05
+E12_algos_neighbor_loops C10
+E13_edge_vertex_helpers C10
+E13_edge_vertex_helpers C11
+E14_h3Index_closed_forms C13
+E14_h3Index_closed_forms C04
+E14_h3Index_closed_forms C01
+E15_coordijk_localij C09
+E15_coordijk_localij C14
+E15_coordijk_localij C19
+E15_coordijk_localij C03
+E16_linkedGeo_vertexGraph C16
+E17_compact_iter_bbox C06
+E17_compact_iter_bbox C17
+E17_compact_iter_bbox C07
+E17_compact_iter_bbox C18
 L
 exit $fail
